@@ -318,7 +318,61 @@ func within(line, col int, sp ref.Span) bool {
 }
 
 // sentinels provokes the engine's sentinel errors at random call depth.
+// allocLimitPositions: a program whose allocating statements (even lines) alternate with statements
+// that allocate nothing (odd lines) is run under every small allocation budget; whenever the budget
+// runs out, the innermost reported location must be on an allocating line, in main and in a function.
+func (c *c14) allocLimitPositions(r *fw.Rec, rng *rand.Rand) {
+	lits := []string{"{}", "[]", "{k: 1}", "[1, 2]", "{}", "[]", "immutable([])", "func() { return 1 }"}
+	var sb strings.Builder
+	inFn := rng.Intn(2) == 0
+	ind := ""
+	first := 1
+	if inFn {
+		sb.WriteString("f := func(p) {\n")
+		ind = "  "
+		first = 2
+	}
+	n := 3 + rng.Intn(4)
+	for i := 0; i < n; i++ {
+		sb.WriteString(fmt.Sprintf("%sa%d := %d\n", ind, i, i))               // allocates nothing
+		sb.WriteString(fmt.Sprintf("%sv%d := %s\n", ind, i, pick(rng, lits))) // allocates
+	}
+	if inFn {
+		sb.WriteString("  return 0\n}\nr := f(1)\n")
+	}
+	src := sb.String()
+	for budget := int64(1); budget <= int64(n)+2; budget++ {
+		eng := runEngine([]byte(src), engineOpts{Budget: 1_000_000, MaxAllocs: budget})
+		r.Eval()
+		if eng.Phase != "runtime-error" || !errors.Is(eng.ErrVal, tengo.ErrObjectAllocLimit) {
+			continue
+		}
+		r.Inc("alloc-limit-positions-checked")
+		pos := errPositions(eng.FullErr)
+		detail := map[string]interface{}{"source": src, "MaxAllocs": budget, "engine_error": eng.FullErr}
+		if len(pos) == 0 {
+			r.Violate("alloc-limit-position:missing", "an allocation-limit failure carries no location", detail)
+			return
+		}
+		line := pos[0].line
+		allocLine := line >= first+1 && line <= first+2*n-1+1 && (line-first)%2 == 1
+		if inFn && line == 2*n+4 {
+			allocLine = true // the call r := f(1) itself
+		}
+		if !allocLine {
+			detail["innermost"] = fmt.Sprintf("%d:%d", pos[0].line, pos[0].col)
+			r.Violate("alloc-limit-position:wrong-statement", "an allocation-limit failure is reported at a statement that allocates nothing", detail)
+			return
+		}
+	}
+	r.Distinct(src)
+}
+
 func (c *c14) sentinels(r *fw.Rec, rng *rand.Rand) {
+	if rng.Intn(5) == 0 {
+		c.allocLimitPositions(r, rng)
+		return
+	}
 	depth := rng.Intn(8)
 	wrap := func(inner string) string {
 		var sb strings.Builder
